@@ -47,6 +47,8 @@ def run(ctx):
         A = ctx.facts("A", required=False)
         if A is not None:
             ctx.run_rule("R1-name-gate-async", r1_gate_async, A)
+            from rules import c20
+            ctx.run_rule("R5-passthrough-delegation", c20.r5_pfs, A)      # the async passthrough entry points go through the gated sync ones
     finally:
         vf.NOUPD[0] = False
         vf.NOCAST[0] = False
